@@ -6,7 +6,7 @@
   * peak live heap obtained by library code <= 8 MiB + 2*len(A)  (allocator monitor),
   * FILE kinds and the CLI (stdio hides the calls): completion inside a generous wall-clock watchdog; a watchdog firing is
     re-run once and only then reported (keyed), never silently dropped."""
-import os, random, struct, shutil
+import os, random, struct, shutil, subprocess, resource, signal
 from concurrent.futures import ThreadPoolExecutor
 from .. import build, core, rdh, arc, cli, streams
 from ..lhamodel import header as H
@@ -187,6 +187,78 @@ def cli_part(ctx, exe, items):
     shutil.rmtree(root, ignore_errors=True)
 
 
+OUT_CAP = 32 * MiB
+ANSWERS = [b'', b'y', b'n', b'\n', b'\n\n\n', b'zzz\n' * 5, b'y\n', b'n\n', b'a\n', b's\n', b'q', b'\x00\xff\n', b'yes', b' ' * 300, b'y\n' * 3 + b'x']
+
+
+def cli_extract_part(ctx, exe, so, items):
+    """Extraction commands return too - in particular at the overwrite prompt, whatever standard input holds (nothing, an
+    unfinished line, junk).  Each archive is extracted twice into the same directory as user nobody under the fs guard; the
+    second run finds every file in place.  Output goes to files under RLIMIT_FSIZE, so a tool that keeps writing is
+    stopped by SIGXFSZ (verdict: unbounded output) instead of filling memory; the decisive bound is on bytes written:
+      (headers possible in A + input lines + 2) * (len(A) + 200)."""
+    base = os.path.join(build.scratch_root(), 'c13x')
+    os.makedirs(base, exist_ok=True)
+    os.chmod(base, 0o755)
+
+    def launch(root, args, stdin, timeout):
+        fo = open(os.path.join(os.path.dirname(root), 'out.' + os.path.basename(root)), 'wb+')
+        e = {'PATH': '/usr/bin:/bin', 'TZ': 'UTC', 'LC_ALL': 'C', 'LD_PRELOAD': so, 'VERIF_FS_ROOT': root,
+             'VERIF_FS_LOG': os.path.join(os.path.dirname(root), 'fslog.' + os.path.basename(root))}
+        open(e['VERIF_FS_LOG'], 'w').close()
+        os.chmod(e['VERIF_FS_LOG'], 0o666)
+
+        def pre():
+            resource.setrlimit(resource.RLIMIT_FSIZE, (OUT_CAP, OUT_CAP))
+        try:
+            r = subprocess.run(cli.NOBODY + [exe] + args, cwd=root, input=stdin, stdout=fo, stderr=subprocess.STDOUT, env=e,
+                               timeout=timeout, preexec_fn=pre)
+            rc = r.returncode
+        except subprocess.TimeoutExpired:
+            rc = -999
+        n = fo.seek(0, 2)
+        fo.close()
+        os.unlink(fo.name)
+        os.unlink(e['VERIF_FS_LOG'])
+        return rc, n
+
+    def one(it):
+        i, (tag, A, nm) = it
+        root = os.path.join(base, 'r%d' % i)
+        cli.mkdir_for_nobody(root)
+        open(os.path.join(root, 'a.lzh'), 'wb').write(A)
+        os.chmod(os.path.join(root, 'a.lzh'), 0o644)
+        out = []
+        mode = ('x', 'e', 'xi')[i % 3]
+        ans2 = ANSWERS[i % len(ANSWERS)]
+        for rnd_no, stdin in ((1, b''), (2, ans2), (3, ANSWERS[(i * 7 + 3) % len(ANSWERS)])):
+            rc, n = launch(root, [mode, 'a.lzh'], stdin, 20)
+            if rc == -999:
+                rc, n = launch(root, [mode, 'a.lzh'], stdin, 60)
+            bound = (len(A) // 20 + stdin.count(b'\n') + 3) * (len(A) + 200)
+            out.append((mode, rnd_no, stdin, rc, n, bound))
+            if rc == -999 or rc == -signal.SIGXFSZ:
+                break
+        shutil.rmtree(root, ignore_errors=True)
+        return tag, A, out
+    with ThreadPoolExecutor(max_workers=16) as ex:
+        for tag, A, out in ex.map(one, list(enumerate(items))):
+            for mode, rnd_no, stdin, rc, n, bound in out:
+                ctx.count('cli_extract_runs')
+                ctx.hist('cli_extract_stdin', repr(stdin[:8]))
+                if rnd_no > 1:
+                    ctx.count('cli_extract_runs_over_existing_files')
+                ctx.cov['evaluations'] += 1
+                base_tag = tag.split('@')[0].split('-')[0]
+                if rc == -999:
+                    ctx.violation('C13-cli-no-return:%s:run%d:%s' % (mode, min(rnd_no, 2), base_tag), "'lha %s' on %s (run %d into the same directory, stdin %r) did not "
+                                  'finish within the watchdog twice' % (mode, tag, rnd_no, stdin[:20]), A)
+                elif rc == -signal.SIGXFSZ or n > bound:
+                    ctx.violation('C13-cli-unbounded-output:%s:run%d:%s' % (mode, min(rnd_no, 2), base_tag), "'lha %s' on %s (run %d into the same directory, stdin %r) wrote "
+                                  '%d bytes of messages (bound %d; stopped at %d)' % (mode, tag, rnd_no, stdin[:20], n, bound, OUT_CAP), A)
+    shutil.rmtree(base, ignore_errors=True)
+
+
 def run(ctx):
     global _EXE
     b = build.Builder()
@@ -221,10 +293,17 @@ def run(ctx):
     core.run_shards(ctx, shard, [(ctx.seed * 19 + i, items[i::nsh], ctx.tier) for i in range(nsh)])
     cli_items = [it for it in items if '@cut' not in it[0]] + [it for it in items if '@cut' in it[0]][::(7 if ctx.tier == 'quick' else 2)]
     cli_part(ctx, exe_cli, cli_items)
+    so = b.shared('fsmon', 'fsmon.c')
+    whole = [it for it in items if it[0].startswith('generated-') and '@cut' not in it[0]]
+    xitems = whole * (3 if ctx.tier == 'quick' else 5) + [it for it in items if '@cut' in it[0]][::(11 if ctx.tier == 'quick' else 3)] \
+        + [it for it in items if it[0].startswith('mutated-')][:(60 if ctx.tier == 'quick' else 1500)]
+    cli_extract_part(ctx, exe_cli, so, xitems)
     ctx.cov['rule'] = ('(input, stream kind, operation) triples: every truncation offset of generated multi-member archives (all methods), extreme '
                        'length declarations, inputs without a header up to and around the 256 KiB scan limit, self-referential and pm1-endless '
                        'streams, mutated and random inputs x 4 stream kinds x {list, read 1 byte each, read to end, check}; distinct by input+kind+'
-                       'operation; non-trivial = input longer than a minimal header')
+                       'operation; non-trivial = input longer than a minimal header; CLI: l/t/pq via file and pipe, and x/e/xi three times into the same directory '
+                       '(the second and third run meet existing files: overwrite prompt with stdin empty, unfinished, junk, or answered) under a '
+                       'wall-clock watchdog and a bound on bytes of messages written')
     ctx.assumptions += ['liveness restated as bounded progress with the explicit budgets above',
                         'FILE stream kinds and the CLI are guarded by wall-clock watchdogs only (stdio hides the stream calls)']
 
